@@ -29,12 +29,18 @@ type genField struct {
 	Key    int
 }
 
+type genFrame struct {
+	Len, Body, Sum int // field indices; -1 when absent
+	Alg            string
+}
+
 type genType struct {
 	Id     int
 	Pkg    string
 	Name   string
 	New    func() any
 	EncErr bool
+	Frame  genFrame
 	Fields []genField
 }
 
